@@ -164,12 +164,12 @@ func VH_C10_Layout() {
 	}
 	for n := 0; n < steps; n++ {
 		repo := repos[vh.Choice("repo", 2)]
-		op := vh.Choice("op", 11)
+		op := vh.Choice("op", 12)
 		sha512 := false
 		if op <= 2 {
 			sha512 = vh.Bool("sha512")
 		}
-		names := []string{"push-blob-x", "push-blob-y+conf", "push-image", "push-index", "push-artifact", "delete-tag", "delete-digest", "delete-blob", "collect", "open-session", "delete-manifest-blob"}
+		names := []string{"push-blob-x", "push-blob-y+conf", "push-image", "push-index", "push-artifact", "delete-tag", "delete-digest", "delete-blob", "collect", "open-session", "delete-manifest-blob", "delete-artifact"}
 		vh.Note(names[op] + " " + repo)
 		apply := func(s *Server) int {
 			switch op {
@@ -212,6 +212,10 @@ func VH_C10_Layout() {
 				// the blob of the image manifest is deleted through the blob API: its index
 				// entry loses its backing content (a later collection drops the entry)
 				return vhDo(s, "DELETE", "/v2/"+repo+"/blobs/"+digest.Canonical.FromBytes(d.img1).String(), nil, nil, nil).Status()
+			case 11:
+				// the artifact is deleted by digest: its subject's referrers response is
+				// regenerated without it and the index entry repointed
+				return vhDo(s, "DELETE", "/v2/"+repo+"/manifests/"+digest.Canonical.FromBytes(d.art1).String(), nil, nil, nil).Status()
 			}
 			return 0
 		}
